@@ -183,8 +183,9 @@ def gen_object(rng, n_enums):
 
 PALETTES_FOR = {
     "table": [None, None, {"cls": "red"}, {"cls": "sub"}, {"cls": "red", "obj": True}, {"cls": "sub", "obj": True}],
-    "pp": [None, None, {"cls": "altpp"}, {"cls": "altpp", "obj": True}],
-    "ghist": [None, None, {"cls": "altghist"}],
+    "pp": [None, None, {"cls": "altpp"}, {"cls": "altpp", "obj": True}, {"cls": "PPPalette", "synced": True},
+           {"cls": "altpp", "synced": True}],
+    "ghist": [None, None, {"cls": "altghist"}, {"cls": "GHistPalette", "synced": True}],
     "recfmt": [None, None, {"cls": "altrec"}],
     "hdoc": [None],
     "ppwrap": [None],
@@ -221,6 +222,8 @@ def generate(rng, tier):
         conf = rng.choice(sorted(live_conf) + ["global"]) if (live_conf and kind not in GLOBAL_ONLY) else "global"
         a = {"obj": o, "conf": conf, "no_color": (rng.random() < 0.25 and kind not in GLOBAL_ONLY),
              "palette": rng.choice(PALETTES_FOR[kind]), "rec": rng.randrange(3)}
+        if a["palette"] and a["palette"].get("synced"):
+            a["conf"] = "global"
         return a
 
     while len(ops) < n_ops:
@@ -272,6 +275,8 @@ def generate(rng, tier):
             o = rng.choice(sorted(live_obj))
             t = rng.randrange(N_TASK)
             a = render_args(o)
+            if a["palette"] and a["palette"].get("synced"):
+                a["palette"] = None       # a synced palette follows the global configuration: immediate renderings only
             a["op"] = "task_start"
             a["task"] = t
             ops.append(a)
@@ -466,6 +471,8 @@ class World:
         via = "global" if op["conf"] == "global" else "explicit"
         pal = op.get("palette")
         if pal and pal not in PALETTES_FOR[kind]:
+            pal = None
+        if pal and pal.get("synced") and (via != "global" or op.get("op") != "render"):
             pal = None
         if kind in GLOBAL_ONLY:
             if via != "global":
